@@ -88,7 +88,7 @@ func TestVerifC17AuthzV1(t *testing.T) {
 		}
 		return "did:nuts:" + k.KeyName()
 	}
-	requesters := []*tokenV2.VKey{tokenV2.VNewKey("p256", "alice"), tokenV2.VNewKey("ed", "bob"), tokenV2.VNewKey("p384", "dave")}
+	requesters := []*tokenV2.VKey{tokenV2.VNewKey("p256", "alice"), tokenV2.VNewKey("ed", "bob"), tokenV2.VNewKey("p384", "dave"), tokenV2.VNewKey("p521", "erin")}
 	mallory := tokenV2.VNewKey("p256", "mallory")
 	source := map[string]crypto.PublicKey{}
 	register := func(k *tokenV2.VKey) {
